@@ -48,3 +48,44 @@ Definition pobs_eqb (a b : pobs) : bool :=
   f_same s s' && Nat.eqb sg sg' && f_same o o' && Nat.eqb og og' && status_eqb st st'.
 
 Definition check_pure (co : pcase * pobs) : bool := pobs_eqb (run_pure (fst co)) (snd co).
+
+(* ---------- end-to-end case: the rows a real Nexus holds about one proposition
+   (and about its functional rivals), the policy in force and the evaluation
+   time; the observation is what `FIND(?b) WHERE { ... ?b BELIEF (?p) }` returned ---------- *)
+
+(* (id, status, state, valid_from, valid_until, mode, actor key, evidence ids,
+    stance, confidence, confidence < 0) *)
+Definition prow :=
+  (Z * string * string * string * string * string * string * list string * string * float * bool)%type.
+(* (modes, accept, material, unstated_confidence, at, expand_conflicts) *)
+Definition ppolicy := (list mode * float * float * float * string * bool)%type.
+Definition ecase := (list prow * list prow * ppolicy)%type.
+(* (status, support, support groups, opposition, opposition groups,
+    (supporting, opposing, uncertain, excluded)) *)
+Definition eobs :=
+  (status * float * nat * float * nat * (list Z * list Z * list Z * list (Z * string)))%type.
+
+Definition mk_row (r : prow) : row float :=
+  let '(i, st, state, vf, vu, m, a, e, s, c, neg) := r in mkRow i st state vf vu m a e s c neg.
+
+Definition run_e2e (c : ecase) : eobs :=
+  let '(own, rivals, (modes, acc, mat, unstated, at_, expand)) := c in
+  let b := project fmax fscore_now 0%float fgeb fltb modes unstated at_ expand
+             (map mk_row own) (map mk_row rivals) {| th_accept := acc; th_material := mat |} in
+  let l := b_ledger b in
+  (b_status b, b_support b, b_sg b, b_opposition b, b_og b,
+   (l_supporting l, l_opposing l, l_uncertain l, l_excluded l)).
+
+Definition zlist_eqb (a b : list Z) : bool :=
+  Nat.eqb (List.length a) (List.length b) && forallb (fun p => Z.eqb (fst p) (snd p)) (combine a b).
+Definition excl_eqb (a b : list (Z * string)) : bool :=
+  Nat.eqb (List.length a) (List.length b) &&
+  forallb (fun p => Z.eqb (fst (fst p)) (fst (snd p)) && String.eqb (snd (fst p)) (snd (snd p))) (combine a b).
+
+Definition eobs_eqb (a b : eobs) : bool :=
+  let '(st, s, sg, o, og, (ls, lo, lu, lx)) := a in
+  let '(st', s', sg', o', og', (ls', lo', lu', lx')) := b in
+  status_eqb st st' && f_same s s' && Nat.eqb sg sg' && f_same o o' && Nat.eqb og og' &&
+  zlist_eqb ls ls' && zlist_eqb lo lo' && zlist_eqb lu lu' && excl_eqb lx lx'.
+
+Definition check_e2e (co : ecase * eobs) : bool := eobs_eqb (run_e2e (fst co)) (snd co).
